@@ -88,6 +88,7 @@ int __real_stat(const char *path, struct stat *st);
  * that would exec exits instead, so that the editor sees a failed command */
 int __wrap_execvp(const char *file, char *const argv[])
 {
+	verif_shell(argv[0] && argv[1] && argv[2] ? argv[2] : "");
 	_exit(127);
 }
 
@@ -324,6 +325,8 @@ static void do_ex(char *line)
 			sscanf(ln, "@@%*s %255s %4000s", a, b);
 			if (!strncmp(ln, "@@touch", 7))
 				*vf_slot(a) = ++vclock;
+			if (!strncmp(ln, "@@epoch", 7))		/* an existing file whose time stamp is 0 */
+				*vf_slot(a) = 0;
 			if (!strncmp(ln, "@@writefile", 11)) {
 				int len;
 				char *dat = hx_dec(b, &len);
@@ -368,6 +371,7 @@ int main(int argc, char *argv[])
 	snprintf(dir, sizeof(dir), "%s.d-XXXXXX", argv[0]);
 	if (!mkdtemp(dir) || chdir(dir))
 		return 2;
+	verif_shell_init();
 	syn_init();
 	tag_init();
 	while (fgets(line, sizeof(line), stdin)) {
